@@ -133,7 +133,7 @@ impl Property for C39 {
         ]
     }
     fn cases(&self, tier: Tier) -> u32 {
-        tier.pick(16, 400)
+        tier.pick(16, 120)
     }
     fn strategy(&self, _tier: Tier) -> BoxedStrategy<Case> {
         (proptest::collection::vec((prop_oneof![3 => Just(0u8), 1 => Just(1u8), 1 => Just(2u8), 1 => Just(3u8)], 0u16..60).prop_map(|(kind, stmts)| FileSpec { kind, stmts }), 1..5), any::<bool>())
